@@ -246,6 +246,11 @@ func cmdCheck(args []string) int {
 		sort.Strings(want)
 		if !ok {
 			fails = append(fails, failure{Obligation: "type-methods:" + tm.Type, Reason: tm.Where + ": type " + tm.Type + " not found", Status: "missing"})
+		} else if extra, missing := methodSetDiff(got, want); len(missing) == 0 && len(extra) > 0 && !anyDispatched(extra) {
+			// a new method that no standard-library interface picks up (an accessor, a String method on a type that is
+			// never formatted as a decode target, ...) cannot reroute the library's I/O or decoding: noted, not a violation
+			typeMethodsOK++
+			extraMethodNotes = append(extraMethodNotes, "type "+tm.Type+" has methods beyond the declared set that no standard-library interface dispatches to: "+strings.Join(extra, " "))
 		} else if strings.Join(got, " ") != strings.Join(want, " ") {
 			fails = append(fails, failure{Obligation: "type-methods:" + tm.Type, Where: tm.Where, Desc: "the method set of *" + tm.Type + " is exactly {" + strings.Join(want, " ") + "}",
 				Reason: "the method set is {" + strings.Join(got, " ") + "}: a method that library code finds by dynamic dispatch (io.ReaderFrom, json.Unmarshaler, ...) changes behaviour no call site shows", Status: "scan"})
@@ -425,6 +430,7 @@ func cmdCheck(args []string) int {
 		as = append(as, "default contract (returns normally, modifies only objects directly passed by pointer/map/slice): "+k)
 	}
 	sort.Strings(as)
+	notes = append(notes, extraMethodNotes...)
 	sort.Strings(notes)
 	ev := map[string]any{
 		"property_id": pid, "tier": *tier, "seed": seed, "level": "proof",
@@ -792,4 +798,46 @@ func methodSetOf(P *Program, key string) ([]string, bool) {
 		return out, true
 	}
 	return nil, false
+}
+
+var extraMethodNotes []string
+
+// dispatchedMethods: methods the standard library looks for by interface assertion on a value it was handed
+// (io, bufio, encoding/json, encoding, fmt, errors, sort, flag, database/sql/driver-like hooks are the ones that matter here).
+var dispatchedMethods = map[string]bool{
+	"ReadFrom": true, "WriteTo": true, "WriteString": true, "WriteByte": true, "ReadByte": true, "WriteRune": true, "ReadRune": true,
+	"ReadAt": true, "WriteAt": true, "Seek": true, "Close": true, "Read": true, "Write": true, "Flush": true, "Available": true,
+	"UnmarshalJSON": true, "MarshalJSON": true, "UnmarshalText": true, "MarshalText": true, "UnmarshalBinary": true, "MarshalBinary": true,
+	"UnmarshalCBOR": true, "MarshalCBOR": true, "GobDecode": true, "GobEncode": true, "AppendText": true, "AppendBinary": true,
+	"Format": true, "GoString": true, "String": true, "Error": true, "Is": true, "As": true, "Unwrap": true, "Scan": true, "Value": true,
+	"Len": true, "Less": true, "Swap": true, "Set": true, "Get": true, "Stat": true, "ReadDir": true, "ReadFile": true, "Open": true,
+}
+
+func methodSetDiff(got, want []string) (extra, missing []string) {
+	w := map[string]bool{}
+	g := map[string]bool{}
+	for _, m := range want {
+		w[m] = true
+	}
+	for _, m := range got {
+		g[m] = true
+		if !w[m] {
+			extra = append(extra, m)
+		}
+	}
+	for _, m := range want {
+		if !g[m] {
+			missing = append(missing, m)
+		}
+	}
+	return
+}
+
+func anyDispatched(ms []string) bool {
+	for _, m := range ms {
+		if dispatchedMethods[m] {
+			return true
+		}
+	}
+	return false
 }
